@@ -13,7 +13,8 @@ EXPLANATION = (
     "currency, payment type constant 0x40, BMP60 prefix 'AC' + caller token, receipt number of the reservation); the "
     "TransactionSummary fields are the same-named fields of the last StatusInformation of the reversal exchange, "
     "mapped by closures that only convert their argument. Not decided: digit formatting of date/time strings, the "
-    "terminal's ledger.")
+    "terminal's ledger. " 
+    "Receipt chain: the receipt number recorded for a token is the last one announced during its reservation and the one sent with the partial reversal (clauses shared with C07-c/d).")
 RULE = "expression-tree equality of request fields with the wiring table; callee identity saturating_sub; closure purity."
 
 PAY = "const zvt_feig_terminal::feig::PAYMENT_TYPE"
@@ -57,7 +58,7 @@ def to_string_of(e):
     return None
 
 
-def run(ctx, chk):
+def _run_own(ctx, chk):
     crate = ctx.crate("zvt_feig_terminal")
     ptr = crate.data.get("ptr_width")
     pay = const_item_value(crate, "zvt_feig_terminal::feig::PAYMENT_TYPE")
@@ -222,3 +223,16 @@ def closure_converts_arg(cb, field):
             if st["s"] == "assign" and st["rv"]["r"] in ("bin",):
                 arith = True
     return uses_arg and not arith
+
+
+def run(ctx, chk):
+    _run_own(ctx, chk)
+    # "... against the receipt number and reference token of that reservation": the receipt-number chain
+    # (last announced receipt -> token map -> reversal request) is decided by the C07-c/d clauses
+    import rules_c07
+    from report import Sub
+    crate = ctx.crate("zvt_feig_terminal")
+    sub = Sub(chk, "C08-c", lambda r: r in ("C07-c/value", "C07-c/insert", "C07-c/key", "C07-d/receipt", "C07-d/request"))
+    rules_c07.begin(sub, crate)
+    rules_c07.close(sub, crate, "commit_transaction")
+    chk.floor("receipt-chain obligations (shared with C07)", sub.count, 5)
